@@ -524,10 +524,12 @@ func registerCrypto(e *Engine) {
 	})
 	e.reg(rtPkg+".Ideal", func(ex *Exec, fn *ssa.Function, args []Value) (Value, *PanicV) {
 		ex.st["ideal"] = true
+		ex.res.Notes = append(ex.res.Notes, "Ideal(): hashes/MACs are random oracles - provably different inputs give different outputs (also truncated to 128 bits); a run of >= 8 bytes of an output never equals bytes derived from other outputs / other positions, >= 8 constant bytes, or >= 8 bytes of honest fresh randomness (csrand, crypto/rand); not applied to bytes read at symbolic positions")
 		return nil, nil
 	})
 	e.reg(rtPkg+".IdealAEAD", func(ex *Exec, fn *ssa.Function, args []Value) (Value, *PanicV) {
 		ex.st["ideal_aead"] = true
+		ex.res.Notes = append(ex.res.Notes, "IdealAEAD(): secretbox.Open succeeds iff the box is byte-for-byte one sealed on this path under the same key and nonce (Dolev-Yao)")
 		return nil, nil
 	})
 	_ = types.Typ
